@@ -20,44 +20,51 @@ D_PRIME = 1000003
 # --------------------------------------------------------------------------
 # export
 # --------------------------------------------------------------------------
-def _vals(buf, dtype):
-    if buf is None:
+def _ints(buf, dtype):
+    if buf is None or dtype is None:
         return []
     v = np.frombuffer(buf, dtype=dtype)
-    if np.issubdtype(v.dtype, np.floating):
-        return [C.num(float(x)) for x in v]
-    return [Some(int(x)) for x in v]
+    out = []
+    for x in v.tolist():
+        if x != int(x):
+            raise ValueError(f'non-integral coordinate {x!r}')
+        out.append(int(x))
+    return out
 
 
-def export_sbuf(shape):
-    """shape.listarray as _ListArrayBufferMixin sees it (buffers(), offset, len)"""
+KIND_CODE = {'multipoint': 1, 'line': 2, 'multiline': 3, 'polygon': 4, 'multipolygon': 5}
+
+
+def wire_shape(kind, shape):
+    """(code, off, len, offs, vals): the scalar shape's own listarray as _ListArrayBufferMixin
+    sees it through .buffers() / .offset / len(); see Model/PointShapeHarness.v mk_shape.
+    Every entry of every buffer is exported (numpy slices clip at the buffers' real lengths)."""
+    if kind == 'point':
+        fv = shape.flat_values
+        assert len(fv) == 2
+        return (0, 0, 2, [], [int(fv[0]), int(fv[1])])
     la = shape.listarray
     bufs = la.buffers()
+    k = KIND_CODE[kind]
     if len(bufs) < 2:
-        return Rec('BNull')
+        return (3 * k + 0, 0, 0, [], [])
     if len(bufs) < 3:
-        return Rec('BPlain', Nat(la.offset), Nat(len(la)), _vals(bufs[1], shape.numpy_dtype))
+        return (3 * k + 1, la.offset, len(la), [], _ints(bufs[1], shape.numpy_dtype))
     offs = []
     for i in range(1, len(bufs) - 1, 2):
         ob = np.frombuffer(bufs[i], dtype=np.uint32) if bufs[i] is not None else np.array([], dtype=np.uint32)
-        offs.append([Nat(int(x)) for x in ob])
-    valid = C._bits(bufs[0], la.offset + len(la))
-    dt = shape.numpy_dtype
-    vals = _vals(bufs[-1], dt) if (len(bufs) % 2 == 0 and dt is not None) else []
-    return Rec('Build_listarr', Nat(la.offset), Nat(len(la)),
-               None if valid is None else Some(valid), offs, vals)
+        offs.append([int(x) for x in ob])
+    # an odd number of buffers: the innermost child is a NullArray (values buffer None)
+    vals = _ints(bufs[-1], shape.numpy_dtype) if len(bufs) % 2 == 0 else []
+    return (3 * k + 2, la.offset, len(la), offs, vals)
 
 
-def export_shape(kind, shape):
-    if kind == 'point':
-        fv = shape.flat_values
-        return Rec('ShPoint', C.num(float(fv[0])), C.num(float(fv[1])))
-    ctor = {'multipoint': 'ShMultiPoint', 'line': 'ShLine', 'multiline': 'ShMultiLine',
-            'polygon': 'ShPolygon', 'multipolygon': 'ShMultiPolygon'}[kind]
-    sb = export_sbuf(shape)
-    if sb.ctor == 'Build_listarr':
-        sb = Rec('BList', sb)
-    return Rec(ctor, sb)
+def zlist(l):
+    return '[' + '; '.join(zlist(x) if isinstance(x, list) else str(int(x)) for x in l) + ']'
+
+
+def enc_bools(l):
+    return sum(1 << i for i, b in enumerate(l) if b) + (1 << len(l))
 
 
 def make_shape(kind, coords, route):
